@@ -112,6 +112,7 @@ func (ex *Exec) execBlock(fr *Frame, b *ssa.BasicBlock, pc Term, st State) (Stat
 			if res.ok() {
 				fr.vals[in] = res
 			}
+			ex.assumeAfter(fr, in, pc, st)
 		case *ssa.Go:
 			ex.vc.note("goroutine spawn skipped: " + posOf(fr.fn, in.Pos()))
 			ex.siteCall(fr, in, in.Common(), pc, st)
@@ -191,6 +192,10 @@ func (ex *Exec) freshTyped(pc Term, name string, t types.Type) Term {
 // assumeType adds the type invariant of a value that comes from outside
 // (parameter, heap, call result).
 func (ex *Exec) assumeType(pc Term, v Term, t types.Type) {
+	if t != nil && isStruct(t) {
+		ex.assumeTypeDeep(v, t)
+		return
+	}
 	switch v.Sort {
 	case SInt:
 		ex.vc.assume(tTrue, inRange(v, t), "type range")
@@ -214,6 +219,11 @@ func (ex *Exec) doAlloc(fr *Frame, in *ssa.Alloc, pc Term, st State) State {
 		lv := &LocalVar{Key: fmt.Sprintf("L|%d|%s|%s", fr.inst, in.Name(), name), T: el, Name: name}
 		fr.locals[in] = lv
 		fr.addrs[in] = &Addr{Local: lv, Elem: el}
+		// the address as a value: only ever passed to inlined callees / spilled into locals
+		ex.nLoc++
+		pv := refLoc(ex.nLoc)
+		pv.LAddr = fr.addrs[in]
+		fr.vals[in] = pv
 		ex.keySort[lv.Key] = ex.te.sortOf(el)
 		return st.with(lv.Key, ex.te.zero(el))
 	}
@@ -255,6 +265,9 @@ func (ex *Exec) doUnOp(fr *Frame, in *ssa.UnOp, pc Term, st State) State {
 		fr.vals[in] = nv
 		if a.Local == nil {
 			ex.assumeType(pc, nv, in.Type())
+		}
+		if gv, ok := in.X.(*ssa.Global); ok && nv.Sort == SIface && ex.g.initNonNil(gv) {
+			ex.vc.assume(tTrue, not(eq(app(SInt, "itag", nv), intLit(0))), "package-level error value set once at init")
 		}
 	case token.NOT:
 		fr.vals[in] = not(ex.val(fr, in.X))
@@ -495,6 +508,10 @@ func (ex *Exec) doFieldAddr(fr *Frame, in *ssa.FieldAddr, pc Term, st State) {
 		si := ex.te.structInfo(xt)
 		path := append(append([]pathStep{}, xa.Path...), pathStep{field: in.Field, si: si})
 		fr.addrs[in] = &Addr{Local: xa.Local, Path: path, Elem: ft}
+		ex.nLoc++
+		pv := refLoc(ex.nLoc)
+		pv.LAddr = fr.addrs[in]
+		fr.vals[in] = pv
 		return
 	}
 	a := ex.fieldAddr(xa.Ref, xt, in.Field)
@@ -522,6 +539,10 @@ func (ex *Exec) doIndexAddr(fr *Frame, in *ssa.IndexAddr, pc Term, st State) {
 		if xa.Local != nil {
 			path := append(append([]pathStep{}, xa.Path...), pathStep{isIdx: true, index: i, elSo: ex.te.sortOf(arr.Elem())})
 			fr.addrs[in] = &Addr{Local: xa.Local, Path: path, Elem: arr.Elem()}
+			ex.nLoc++
+			pv := refLoc(ex.nLoc)
+			pv.LAddr = fr.addrs[in]
+			fr.vals[in] = pv
 			return
 		}
 		r := ex.vc.def(in.Name(), refElem(xa.Ref, i))
